@@ -4103,3 +4103,195 @@ func E5DictCompleteBeforeWrite(c *core.Ctx, r *core.Report) {
 	r.Count("E5.dicts-filled-then-written", n)
 	r.Floor("E5.dicts-filled-then-written", 2)
 }
+
+// E5GradientOffsetsUsed: a gradient with two or more stops is written with its stop offsets.
+func E5GradientOffsetsUsed(c *core.Ctx, r *core.Report) {
+	r.Rule("E5.gradient-offsets-used", "a gradient paints the first colour up to the first stop's offset, ramps between the offsets and keeps the last colour after the last one; the rasterizer and the SVG writer do, and the PDF shading function has to encode the offsets (the Bounds of a stitching function, constant pieces in front and behind). In patternStopsFunction every return that can be reached with two or more stops — the tests of len(stops) are decided for 2 and for 3 — lies on a path that reads the stops' Offset; a shortcut that returns one interpolation from the first to the last stop stretches the ramp over the whole axis whenever a stop is not at 0 or 1")
+	p := c.MustPkg(pdfRel)
+	info := p.TypesInfo
+	fd := core.MustFuncDecl(p, "patternStopsFunction")
+	stops := paramObj(info, fd, 0)
+	readsOffset := func(nd ast.Node) bool {
+		hit := false
+		ast.Inspect(nd, func(k ast.Node) bool {
+			if se, ok := k.(*ast.SelectorExpr); ok && se.Sel.Name == "Offset" {
+				hit = true
+			}
+			return true
+		})
+		return hit
+	}
+	n := 0
+	for _, count := range []int64{2, 3} {
+		env := func(e ast.Expr) tri {
+			be, ok := e.(*ast.BinaryExpr)
+			if !ok {
+				return tUnknown
+			}
+			var lenSide, other ast.Expr
+			for _, pr := range [][2]ast.Expr{{be.X, be.Y}, {be.Y, be.X}} {
+				if call, ok := core.Unparen(pr[0]).(*ast.CallExpr); ok && len(call.Args) == 1 {
+					if id, ok := call.Fun.(*ast.Ident); ok && id.Name == "len" {
+						if aid, ok := core.Unparen(call.Args[0]).(*ast.Ident); ok && core.ObjOf(info, aid) == stops {
+							lenSide, other = pr[0], pr[1]
+						}
+					}
+				}
+			}
+			if lenSide == nil {
+				return tUnknown
+			}
+			v, ok := core.ConstInt(info, other)
+			if !ok {
+				return tUnknown
+			}
+			l, rr := count, v
+			if lenSide == be.Y {
+				l, rr = v, count
+			}
+			switch be.Op {
+			case token.EQL:
+				return triOf(l == rr)
+			case token.NEQ:
+				return triOf(l != rr)
+			case token.LSS:
+				return triOf(l < rr)
+			case token.LEQ:
+				return triOf(l <= rr)
+			case token.GTR:
+				return triOf(l > rr)
+			case token.GEQ:
+				return triOf(l >= rr)
+			}
+			return tUnknown
+		}
+		// walk the top-level statements: early returns decided by len(stops)
+		seenOffset := false
+		var walk func(list []ast.Stmt) bool // returns true when a return was reached
+		walk = func(list []ast.Stmt) bool {
+			for _, st := range list {
+				switch x := st.(type) {
+				case *ast.IfStmt:
+					v := evalBool(info, x.Cond, env)
+					if v == tTrue {
+						return walk(x.Body.List)
+					}
+					if v == tFalse {
+						switch e := x.Else.(type) {
+						case *ast.BlockStmt:
+							if walk(e.List) {
+								return true
+							}
+						case *ast.IfStmt:
+							if walk([]ast.Stmt{e}) {
+								return true
+							}
+						}
+						continue
+					}
+					// undecided: the statement may or may not run; what it reads counts as read
+					if readsOffset(x) {
+						seenOffset = true
+					}
+				case *ast.ReturnStmt:
+					n++
+					key := fmt.Sprintf("pdf.patternStopsFunction|return reached with %d stops uses their offsets", count)
+					if seenOffset || readsOffset(x) {
+						r.OK("E5.gradient-offsets-used", key, c.Pos(x.Pos()), "")
+					} else {
+						r.Fail("E5.gradient-offsets-used", key, c.Pos(x.Pos()), fmt.Sprintf("with %d stops the function returns `%s` without having read a stop's Offset: the ramp runs from 0 to 1 whatever the offsets are, while the rasterizer and the SVG writer hold the end colours outside them", count, c.Src(x)))
+					}
+					return true
+				default:
+					if readsOffset(st) {
+						seenOffset = true
+					}
+				}
+			}
+			return false
+		}
+		walk(fd.Body.List)
+	}
+	r.Count("E5.gradient-returns", n)
+	r.Floor("E5.gradient-returns", 2)
+}
+
+// E5CIDToGIDEntries: the CIDToGIDMap maps the code to the glyph ID, byte by byte.
+func E5CIDToGIDEntries(c *core.Ctx, r *core.Report) {
+	r.Rule("E5.cid-to-gid-entries", "when a font is embedded in full, /CIDToGIDMap tells the reader which glyph of the font each code selects: two bytes per code, at position 2·code, holding the glyph ID. In the loop of pdfWriter.writeFont that ranges over the glyph list (key: code, value: glyph ID of the loaded font) and fills a byte slice, every index is computed from the key alone and every stored byte from the value alone. A high byte taken from the code selects glyph `gid mod 256` for every glyph ID above 255 — Greek and Cyrillic in the test fonts — while /W and ToUnicode still describe the glyph that was laid out")
+	p := c.MustPkg(pdfRel)
+	info := p.TypesInfo
+	fd := core.MustFuncDecl(p, "pdfWriter.writeFont")
+	n := 0
+	ast.Inspect(fd.Body, func(m ast.Node) bool {
+		rs, ok := m.(*ast.RangeStmt)
+		if !ok || rs.Value == nil {
+			return true
+		}
+		kid, ok1 := rs.Key.(*ast.Ident)
+		vid, ok2 := rs.Value.(*ast.Ident)
+		if !ok1 || !ok2 || kid.Name == "_" || vid.Name == "_" {
+			return true
+		}
+		keyObj, valObj := core.ObjOf(info, kid), core.ObjOf(info, vid)
+		// locals derived from the key or the value inside the body
+		fromKey, fromVal := map[types.Object]bool{keyObj: true}, map[types.Object]bool{valObj: true}
+		mentions := func(e ast.Node, set map[types.Object]bool) bool {
+			hit := false
+			ast.Inspect(e, func(k ast.Node) bool {
+				if id, ok := k.(*ast.Ident); ok && set[core.ObjOf(info, id)] {
+					hit = true
+				}
+				return true
+			})
+			return hit
+		}
+		for _, st := range rs.Body.List {
+			if as, ok := st.(*ast.AssignStmt); ok && len(as.Lhs) == len(as.Rhs) {
+				for i, l := range as.Lhs {
+					if id, ok := l.(*ast.Ident); ok {
+						if mentions(as.Rhs[i], fromKey) && !mentions(as.Rhs[i], fromVal) {
+							fromKey[core.ObjOf(info, id)] = true
+						}
+						if mentions(as.Rhs[i], fromVal) && !mentions(as.Rhs[i], fromKey) {
+							fromVal[core.ObjOf(info, id)] = true
+						}
+					}
+				}
+			}
+		}
+		ast.Inspect(rs.Body, func(k ast.Node) bool {
+			as, ok := k.(*ast.AssignStmt)
+			if !ok || len(as.Lhs) != len(as.Rhs) {
+				return true
+			}
+			for i, l := range as.Lhs {
+				ie, ok := core.Unparen(l).(*ast.IndexExpr)
+				if !ok {
+					continue
+				}
+				st, ok := info.TypeOf(ie.X).Underlying().(*types.Slice)
+				if !ok {
+					continue
+				}
+				if bt, ok := st.Elem().Underlying().(*types.Basic); !ok || bt.Kind() != types.Uint8 {
+					continue
+				}
+				n++
+				key := fmt.Sprintf("pdf.pdfWriter.writeFont|CIDToGIDMap byte #%d", n)
+				switch {
+				case !mentions(ie.Index, fromKey) || mentions(ie.Index, fromVal):
+					r.Fail("E5.cid-to-gid-entries", key, c.Pos(as.Pos()), fmt.Sprintf("the position `%s` is not computed from the code alone", c.Src(ie.Index)))
+				case !mentions(as.Rhs[i], fromVal) || mentions(as.Rhs[i], fromKey):
+					r.Fail("E5.cid-to-gid-entries", key, c.Pos(as.Pos()), fmt.Sprintf("`%s` stores a byte that is not taken from the glyph ID alone: codes whose glyph ID does not fit one byte select another glyph of the embedded font", c.Src(as)))
+				default:
+					r.OK("E5.cid-to-gid-entries", key, c.Pos(as.Pos()), "")
+				}
+			}
+			return true
+		})
+		return true
+	})
+	r.Count("E5.cid-to-gid-bytes", n)
+	r.Floor("E5.cid-to-gid-bytes", 2)
+}
